@@ -32,10 +32,20 @@ func (x Expr) Append(buf []byte, brackets ...bool) []byte {
 			bracket = true
 			continue
 		}
+		start := len(buf)
 		buf = frag.Append(buf, bracket, i == 0)
+		if 0 < i && !bracket && start < len(buf) && buf[start] != '.' {
+			if _, ok := x[i-1].(Descent); ok {
+				// The fragment did not start with a '.' of its own so
+				// the descent has to be written as "..".
+				buf = append(buf, 0)
+				copy(buf[start+1:], buf[start:])
+				buf[start] = '.'
+			}
+		}
 	}
 	if 0 < len(x) {
-		if _, ok := x[len(x)-1].(Descent); ok {
+		if _, ok := x[len(x)-1].(Descent); ok && !bracket { // "[..]" is already complete
 			buf = append(buf, '.')
 		}
 	}
